@@ -273,14 +273,57 @@ func (vc *VC) assume(st *State, f *Term) {
 	if vc.dry > 0 {
 		return
 	}
-	vc.assumes = append(vc.assumes, Implies(st.pc, f))
+	f = Implies(st.pc, f)
+	if fb := freeBound(f); len(fb) > 0 {
+		// a side fact (value range of a load) produced while evaluating under a quantifier: not needed, dropped
+		return
+	}
+	vc.assumes = append(vc.assumes, f)
 }
 
 func (vc *VC) addGlobalFact(f *Term) {
 	if f.IsConst && f.B {
 		return
 	}
+	if fb := freeBound(f); len(fb) > 0 {
+		return
+	}
 	vc.gfacts = append(vc.gfacts, f)
+}
+
+// freeBound lists bound variables occurring free in t.
+func freeBound(t *Term) []*Term {
+	var out []*Term
+	seen := map[int]bool{}
+	var rec func(t *Term, bound map[*Term]bool)
+	rec = func(t *Term, bound map[*Term]bool) {
+		if t.IsBound {
+			if !bound[t] && !seen[t.ID] {
+				seen[t.ID] = true
+				out = append(out, t)
+			}
+			return
+		}
+		if len(t.Args) == 0 {
+			return
+		}
+		if t.Op == "forall" || t.Op == "exists" {
+			nb := map[*Term]bool{}
+			for k := range bound {
+				nb[k] = true
+			}
+			for i := 0; i < t.NBind; i++ {
+				nb[t.Args[i]] = true
+			}
+			rec(t.Args[t.NBind], nb)
+			return
+		}
+		for _, a := range t.Args {
+			rec(a, bound)
+		}
+	}
+	rec(t, map[*Term]bool{})
+	return out
 }
 
 func (vc *VC) oblige(st *State, name, kind string, goal *Term, tags []string, src string) {
